@@ -151,6 +151,7 @@ func (e *Engine) index() {
 		}
 		e.Fns = append(e.Fns, fn)
 	}
+	e.computeRenames()
 	sort.Slice(e.Fns, func(i, j int) bool {
 		a, b := e.Fns[i], e.Fns[j]
 		if a.Pos() != b.Pos() {
@@ -300,6 +301,16 @@ func (e *Engine) FuncObj(rel, name string) *types.Func {
 }
 
 func (e *Engine) funcObjOpt(rel, name string) *types.Func {
+	f := e.funcObjByName(rel, name)
+	noteAnchor(rel, name, f)
+	if f == nil {
+		// the anchor may have been renamed: unique new function of the same package with the pinned signature
+		f = e.renamedAnchor(rel, name)
+	}
+	return f
+}
+
+func (e *Engine) funcObjByName(rel, name string) *types.Func {
 	p := e.ByPath[modPath+"/"+rel]
 	if p == nil {
 		return nil
@@ -392,7 +403,7 @@ func fname(fn *ssa.Function) string {
 	}
 	s := fn.String()
 	s = strings.ReplaceAll(s, modPath+"/", "")
-	return s
+	return pinnedSpelling(fn, s)
 }
 
 // topLevel returns the outermost declared function enclosing fn.
